@@ -30,7 +30,7 @@ from vlib.gen import c06_models as gen
 from vlib.gen import kinetic
 
 MATRIX_TOL = 1e-12  # of the column scale
-FIT_TOL = 1.5e-7  # cost and parameters after one optimisation step, relative: x max(10, cond clp matrix) x cond(J)
+FIT_TOL = 1e-7  # cost and parameters after one optimisation step: floor of the relative tolerance (see prop_twin_fit)
 ARRAY_TOL = 1e-6  # labelled result arrays after the fit, of the scale of the labelled slice
 SAME_POINT_TOL = 1e-8  # cost and labelled result arrays of the twin evaluated at the same parameters
 COND_MAX = 1e6
@@ -56,11 +56,26 @@ def build_model(spec):
     return _MODEL_CLASSES[types](**spec)
 
 
+def build_parameters(parameters, perturb=None):
+    """Parameters from the case; with ``perturb`` the free parameters are multiplied by 1 + (factor - 1) * opts["_rel"]."""
+    from glotaran.parameter import Parameters
+
+    d, k = {}, 0
+    for grp, items in parameters.items():
+        out = []
+        for label, value, opts in items:
+            opts = dict(opts)
+            rel = opts.pop("_rel", 1.0)
+            if perturb is not None and opts.get("vary", True):
+                value = value * (1.0 + (perturb[k % len(perturb)] - 1.0) * rel)
+                k += 1
+            out.append([label, value, opts])
+        d[grp] = out
+    return Parameters.from_dict(d)
+
+
 def build(spec, parameters, perturb=None):
-    case = {"spec": spec, "parameters": parameters, "perturb": perturb or [1.0]}
-    model = build_model(spec)
-    params = kinetic.build_parameters(case, perturb=perturb is not None)
-    return model, params
+    return build_model(spec), build_parameters(parameters, perturb)
 
 
 def axes_of(case, ds):
@@ -409,6 +424,16 @@ def _decade(v):
     return "0" if v == 0 else f"1e{int(np.floor(np.log10(v)))}"
 
 
+def _base_fit(case, data, order, nfev):
+    """The fit of the (unpermuted) model; an optimiser that walks out of the model's domain is not a verdict."""
+    try:
+        return run_fit(case, case["spec"], data, order, nfev=nfev)
+    except ValueError as e:
+        if str(e).startswith("Non-finite concentrations"):
+            raise Discard("optimiser left the domain of the model (non-finite concentrations)") from e
+        raise
+
+
 def _values(result):
     return {p.label: p.value for p in result.optimized_parameters.all()}
 
@@ -417,7 +442,9 @@ def _same_point(ra, rc, where, cond, dnorm2, mc_labels):
     """The twin evaluated at the same parameters: cost and every labelled result array, tight tolerance."""
     pa, pc = _values(ra), _values(rc)
     check(set(pa) == set(pc), "fit.parameter_labels", "")
-    check(all(abs(pa[k] - pc[k]) <= 1e-12 * abs(pa[k]) for k in pa), "fit.selfcheck_same_point", lambda: f"{where}: one evaluation moved the parameters")
+    if not all(abs(pa[k] - pc[k]) <= 1e-9 * max(abs(pa[k]), 1e-3) for k in pa):
+        # (scipy moves start values lying on a bound into the interior by a relative 1e-10; anything larger is not "the same point")
+        raise Discard("one evaluation moved the parameters")
     cdiff = abs(ra.cost - rc.cost) / max(ra.cost, rc.cost, 1e-300)
     check(abs(ra.cost - rc.cost) <= SAME_POINT_TOL * max(ra.cost, rc.cost) + 1e-13 * dnorm2, "fit.cost_at_same_parameters",
           lambda: f"{where}: cost {ra.cost!r} vs {rc.cost!r} (relative {cdiff:.2e}; cond {cond:.1e})")
@@ -434,8 +461,8 @@ def prop_twin_fit(case):
     """optimize() on the same seeded data, model and twin:
     (a) one evaluation at the same perturbed start values, and the twin at the optimum the model reached after
         NFEV evaluations: cost and every labelled result array agree (by label) to SAME_POINT_TOL;
-    (b) one optimisation step (2 evaluations) from the same start values: cost and parameters agree to
-        FIT_TOL x max(10, cond of the clp problem) x cond(J at the start), skipped when that exceeds 1e-3."""
+    (b) one optimisation step (2 evaluations) from the same start values: cost and parameters agree to a tolerance
+        derived from the forward-difference noise of the Jacobian (>= FIT_TOL), skipped when that exceeds 1e-3."""
     with warnings.catch_warnings():
         warnings.simplefilter("ignore")
         with expect_ok("fit.build"):
@@ -465,7 +492,7 @@ def prop_twin_fit(case):
         cdiff0, worst0 = _same_point(r0, t0, "start values", max(cond, cond_start), dnorm2, mc_labels)
         # (a2) the optimum of the model
         with expect_ok("fit.optimize"):
-            ra = run_fit(case, case["spec"], data, base_order)
+            ra = _base_fit(case, data, base_order, NFEV)
         pa = _values(ra)
         if not all(np.isfinite(v) for v in pa.values()) or not np.isfinite(ra.cost):
             raise Discard("fit of the base model diverged")
@@ -477,24 +504,25 @@ def prop_twin_fit(case):
         cdiff1, worst1 = _same_point(ra, rc, "optimised values", max(cond, cond_opt), dnorm2, mc_labels)
         moved = max((abs(pa[p.label] - p.value) / max(abs(p.value), 1e-12) for p in ra.initial_parameters.all()), default=0.0)
         # (b) one optimisation step from the same start values.  The optimiser differentiates the objective by forward
-        # differences (relative step 1.5e-8), which turns the rounding differences between the twins' objectives
-        # (observed <= 1e-13) into relative differences of order 1e-8 x cond(J) of the step: the tolerance is scaled
-        # with the conditioning of the (column-normalised) Jacobian at the start values, as the fit reports it.
+        # differences (step h >= 1.5e-8 in its internal parameters).  The rounding differences between the twins' objectives
+        # (eps x cond of the clp problem x |data|) become relative errors  eps cond |data| / (h |J_j|)  of column j of the
+        # Jacobian and, amplified by cond(J) (column-normalised), of the step.  Tolerance: ten times that estimate, from the
+        # Jacobian the fit reports at the start values; the comparison is skipped when it exceeds 1e-3.
         J = np.asarray(r0.jacobian, dtype=float) if r0.jacobian is not None else np.zeros((0, 0))
-        cond_j = 1.0
+        cond_j, tol_fit = 1.0, FIT_TOL
         if J.size:
             nrm = np.linalg.norm(J, axis=0)
             if np.any(nrm == 0) or not np.all(np.isfinite(J)):
-                cond_j = np.inf
+                cond_j = tol_fit = np.inf
             else:
                 sv = np.linalg.svd(J / nrm, compute_uv=False)
                 cond_j = float(sv[0] / sv[-1]) if sv[-1] > 0 else np.inf
-        # relative error of the forward-difference Jacobian: eps x cond(clp problem) / 1.5e-8; ten times that, times cond(J)
-        tol_fit = FIT_TOL * max(10.0, max(cond, cond_start)) * max(1.0, cond_j)
+                noise = 1e-16 * max(10.0, cond, cond_start) * np.sqrt(2 * dnorm2) / (1.5e-8 * float(nrm.min()))
+                tol_fit = max(FIT_TOL, 10.0 * noise * cond_j)
         compared = tol_fit <= 1e-3
         if compared:
             with expect_ok("fit.optimize"):
-                ra2 = run_fit(case, case["spec"], data, base_order, nfev=2)
+                ra2 = _base_fit(case, data, base_order, 2)
             with expect_ok("fit.optimize_twin"):
                 rb2 = run_fit(case, twin_spec, data, twin_order, nfev=2)
             p2, q2, p0 = _values(ra2), _values(rb2), _values(r0)
